@@ -84,7 +84,15 @@ def check_c01(rep):
     if not q:
         l2_exhaustive(rep, "with subscribers and unencodable messages", dict(MaxMsg=3, MaxEnv=6, MaxTask=12, ConnSubs="TRUE"), "KindsBad", "PolIdem", timeout=2400)
         l2_sensitivity(rep, "F_ENQ", dict(MaxMsg=2, MaxEnv=5), "KindsOk", "PolMixed", "OnceUnlessFailed")
+    l2_exhaustive(rep, "back-pressure: sends suspended in drain(), cancelled by their caller", dict(MaxMsg=2, MaxEnv=5 if q else 6, Stalls="TRUE"), "KindsOk", "PolIdem")
+    if not q:
+        one = dict(MaxMsg=2, MaxEnv=8, MaxConn=1, MaxTask=6, H=1, Stalls="TRUE")
+        l2_exhaustive(rep, "one connection, 8 environment steps: stall, two sends, one cancelled, stall ends", one, "KindsOk", "PolIdem", timeout=3000)
+        l2_sensitivity(rep, "F_SOLO", one, "KindsOk", "PolIdem", "PromptAtQuiesce", timeout=3000)
     l2_replay(rep, 1200 if q else 20000)
+    sd = [(f"stall-{p}-{s}", p, *G.stalled_drain(s, p)) for i, s in enumerate(seeds(300 if q else 4000, 21))
+          for p in (("at4",) if i % 2 == 0 else ("at5",))]
+    run_generated(rep, "stalled connections: held messages drained into them, sends piling up, callers giving up", sd)
     run_generated(rep, "random order scripts", PS.gen_scripts("order", 500 if q else 8000, lib.seed() + 1))
     run_generated(rep, "random mixed scripts", PS.gen_scripts("mixed", 300 if q else 6000, lib.seed() + 2))
     lr = [(f"long-{p}-{s}", p, *G.long_run(s, p, 300 if q else 600)) for i, s in enumerate(seeds(4 if q else 16, 1))
